@@ -22,7 +22,7 @@ if [ "${SKIP_BASELINE:-0}" = "0" ]; then
 else BASE="skipped"; fi
 RES=""
 for id in "$@"; do
-  OUT=$(VERIF_SKIP_MC=1 VERIF_REPO="$WT" VERIF_EVIDENCE="$SC" VERIF_REPLAYS="$SC" "$V/vf" check "$id" --tier "${TIER:-quick}" 2>&1 | grep -E "VIOLATION|MACHINERY|detail|held|VIOLATED" | head -4)
+  OUT=$(VERIF_SKIP_MC=${SKIP_MC:-} VERIF_REPO="$WT" VERIF_EVIDENCE="$SC" VERIF_REPLAYS="$SC" "$V/vf" check "$id" --tier "${TIER:-quick}" 2>&1 | grep -E "VIOLATION|MACHINERY|detail|held|VIOLATED" | head -4)
   echo "[$id] $OUT"
   RES="$RES $id:$(echo "$OUT" | grep -c '^VIOLATION')"
 done
